@@ -119,6 +119,32 @@ static var body_tls(var args) {
   return NULL;
 }
 
+/* the argument objects outlive every thread (a compound literal in the calling statement would not) */
+static var ARG1, ARG2;
+/* call arguments: the thread reads the arguments it was started with at its start, in the middle and at the end of its work */
+static var body_args(var args) {
+  int me = my_id();
+  volatile int64_t d = 0;
+  for (int round = 0; round < 3; round++) {
+    var e = VF_CATCH({
+      if (len(args) != 2) sch_fail("call-arguments-lost", "thread %d: it was started with 2 arguments, len(args) is now %d", me, (int)len(args));
+      d = d * 31 + c_int(get(args, $I(0)));
+      d = d * 31 + c_int(get(args, $I(1)));
+    });
+    if (e) sch_fail("call-arguments-lost", "thread %d: reading its call arguments raised %s", me, vf_exc_name(e));
+    var o = new(TObj, $I(round)); (void)o;      /* its own allocations in between */
+  }
+  /* a value another thread put into this thread's storage before it was started */
+  if (mem(current(Thread), $S("seed"))) {
+    var e = VF_CATCH(d = d * 31 + c_int(get(current(Thread), $S("seed"))));
+    if (e) sch_fail("seeded-thread-local-value-lost", "thread %d: reading the thread-local value its parent installed raised %s", me, vf_exc_name(e));
+  }
+  result[me] = d;
+  olog((char)('0' + me));
+  done_flag[me] = 1;
+  return NULL;
+}
+
 /* formatting: each thread formats with its own (different, short) format text into its own String */
 static var body_fmt(var args) {
   int me = my_id();
@@ -193,7 +219,7 @@ static void check_teardown(int nt) {
 static void scn_workers(void) {
   var th[SCH_MAXT];
   var fobj = $(Function, the_body);   /* one object, read-only once the threads run */
-  for (int i = 0; i < nthreads; i++) { th[i] = new_raw(Thread, fobj); call(th[i]); }
+  for (int i = 0; i < nthreads; i++) { th[i] = new_raw(Thread, fobj); if (the_body == body_args) call(th[i], ARG1, ARG2); else call(th[i]); }
   for (int i = 0; i < nthreads; i++) {
     join(th[i]);
     /* under the scheduler thread ids are creation order; free-running, ids are handed out on first use, so only the
@@ -214,9 +240,12 @@ static void scn_workers(void) {
 
 /* the parent allocates and collects while a child starts, works and exits */
 static int managed_thread;   /* the Thread object itself is collector-managed and held on the parent's stack */
+static int seed_tls;         /* the parent installs a collector-managed value in the child's thread-local storage before starting it */
 static void scn_parent_collects(void) {
   var th = managed_thread ? (var)new(Thread, $(Function, the_body)) : (var)new_raw(Thread, $(Function, the_body));
-  call(th);
+  /* (a raw Thread object is invisible to the parent's collector, so only a managed one can keep a managed value alive) */
+  if (seed_tls) set(th, $S("seed"), managed_thread ? (var)new(Int, $I(7777)) : (var)new_raw(Int, $I(7777)));
+  if (the_body == body_args) call(th, ARG1, ARG2); else call(th);
   var keep[4];
   for (int i = 0; i < 12; i++) { var o = new(TObj, $I(i)); if (i % 3 == 0) keep[i / 3] = o; }
   for (int k = 0; k < 4; k++) { struct TObj* o = keep[k]; if (o->owner != 0 || tobj_state[o->serial] != 1) sch_fail("live-object-finalised-by-another-threads-work", "main thread: an object it still holds was finalised"); }
@@ -265,7 +294,7 @@ static void scn_mutex(void) {
   mtx = new_raw(Mutex);
   var th[SCH_MAXT];
   var fobj = $(Function, body_mutex);
-  for (int i = 0; i < nthreads; i++) { th[i] = new_raw(Thread, fobj); call(th[i]); }
+  for (int i = 0; i < nthreads; i++) { th[i] = new_raw(Thread, fobj); if (the_body == body_args) call(th[i], ARG1, ARG2); else call(th[i]); }
   for (int i = 0; i < nthreads; i++) join(th[i]);
   if (counter != entered || entered != 2 * nthreads) sch_fail("lost-update-in-critical-section", "counter=%d after %d sections (expected %d)", counter, entered, 2 * nthreads);
   for (int i = 0; i < nthreads; i++) del_raw(th[i]);
@@ -376,6 +405,7 @@ int main(int argc, char** argv) {
   vf_init(argc, argv);
   sch = mmap(NULL, sizeof *sch, PROT_READ | PROT_WRITE, MAP_SHARED | MAP_ANONYMOUS, -1, 0);
   const char* scn = vf_param("scn", "mutex-lock");
+  ARG1 = new_raw(Int, $I(41)); ARG2 = new_raw(Int, $I(42));
   nthreads = (int)vf_param_i("threads", 2);
   managed_thread = (int)vf_param_i("managed", 0);
   struct sch_explorer ex; memset(&ex, 0, sizeof ex);
@@ -403,6 +433,7 @@ int main(int argc, char** argv) {
     else if (strcmp(b, "exc") == 0) { the_body = body_exc; the_body_name = "exc"; ex.site_mask = exc_sites | (parent ? gc_sites : 0); }
     else if (strcmp(b, "tls") == 0) { the_body = body_tls; the_body_name = "tls"; ex.site_mask = tab_sites | (parent ? gc_sites : 0); }
     else if (strcmp(b, "cont") == 0) { the_body = body_cont; the_body_name = "cont"; ex.site_mask = tab_sites | (parent ? gc_sites : 0); }
+    else if (strcmp(b, "args") == 0) { the_body = body_args; the_body_name = "args"; ex.site_mask = gc_sites | thr_sites; seed_tls = (int)vf_param_i("seed", 0); }
     else if (strcmp(b, "fmt") == 0) { the_body = body_fmt; the_body_name = "fmt"; ex.site_mask = M(CELLO_VP_TYPE_CACHE_READ) | exc_sites; }
     else { fprintf(stderr, "unknown scenario %s\n", scn); _exit(2); }
     static int64_t solo[SCH_MAXT];
@@ -430,7 +461,9 @@ static var body_nop(var args) { return NULL; }
 static void seq_scenario(void) {
   for (int i = 1; i < seq_id; i++) { var d = new_raw(Thread, $(Function, body_nop)); call(d); join(d); del_raw(d); }
   var th = new_raw(Thread, $(Function, the_body));
-  call(th); join(th); del_raw(th);
+  if (seed_tls) set(th, $S("seed"), new_raw(Int, $I(7777)));
+  if (the_body == body_args) call(th, ARG1, ARG2); else call(th);
+  join(th); del_raw(th);
   sch->digest = (uint64_t)result[seq_id];
 }
 int64_t seq_ref(int id) {
